@@ -183,7 +183,10 @@ def validateOp (op : String) (j : Json) : Except String Json := do
     let ss ← specs.mapM jCbSpec
     pure (.arr (ss.toList.flatMap (fun s =>
       let r := setCbounds n lb hb s
-      jN (codeOf r.2) :: padCbounds r.1)).toArray)
+      -- on a fresh device (`cbounds is None`): a rejected assignment leaves `None` in place
+      match r.2 with
+      | none => jN 0 :: padCbounds r.1
+      | some e => jN (vErrCode e) :: padCbounds none)).toArray)
   | "validate.ctor" =>
     let cls ← clsOfName (← (← fld j "cls").getStr?)
     let n ← jNat (← fld j "n")
@@ -231,15 +234,18 @@ def validateOp (op : String) (j : Json) : Except String Json := do
       let n ← jNat (← fld j "n")
       let b ← jPyVal (← fld j "b")
       let cb ← jCbSpec (← fld j "cb")
-      match construct (α := R) .device n b cb [] with
+      let c ← match asPVal (← jVal (← fld j "c")) with
+        | some p => pure p
+        | none => throw "c must be scalar or vector"
+      let te ← jList (← fld j "t_external")
+      match tdeviceCtor n b cb (← jRat (← fld j "sustainment")) (← jRat (← fld j "efficiency")) (← jRat (← fld j "t_init"))
+          (← jRat (← fld j "t_optimal")) (← jRat (← fld j "t_range")) te c with
       | .error e => pure (.arr #[jN (vErrCode e)])
-      | .ok _ =>
-        let c ← match asPVal (← jVal (← fld j "c")) with
-          | some p => pure p
-          | none => throw "c must be scalar or vector"
-        let ok := tdeviceCheck n (← jRat (← fld j "sustainment")) (← jRat (← fld j "efficiency"))
-          (← jRat (← fld j "t_range")) (← jNat (← fld j "lent")) c
-        pure (.arr #[jN (if ok then 0 else 1)])
+      | .ok d =>
+        -- the settings the device reports (mirrored by vk/props/c11.py: dump_tdevice)
+        pure (.arr ((jN 0 :: padTable n d.table) ++ padCbounds d.cbounds ++
+          [rVal d.sustainment, rVal d.efficiency, rVal d.tInit, rVal d.tOptimal, rVal d.tRange] ++
+          (List.range n).map (fun i => match d.tExternal[i]? with | some x => rVal x | none => jN 0) ++ padPVal n d.c).toArray)
     | _ => throw s!"unknown set kind {kind}"
   | _ => throw s!"unknown op {op}"
 
